@@ -66,6 +66,21 @@ def build(case):
         y += '    auto_populated_fields:\n' + ''.join(f'    - {x}\n' for x in fields_)
     req = request([f], 'transport=grpc+rest,autogen-snippets=false,service-yaml=@svc.yaml@' + (
         ',python-gapic-templates=ads-templates,old-naming' if case.get('ads') else ''))
+    if case.get('layout') == 'subpackages':
+        # the googleads layout: every file of the API sits in a proto sub-package (services / resources)
+        from google.protobuf import text_format
+        from google.protobuf.compiler import plugin_pb2
+        main = [pf for pf in req.proto_file if pf.name == f.name][0]
+        txt = text_format.MessageToString(main).replace('acme.auto.v1', 'acme.auto.v1.services').replace('acme/auto/v1/', 'acme/auto/v1/services/')
+        moved = type(main)()
+        text_format.Parse(txt, moved)
+        res = file('acme/auto/v1/resources/res.proto', P + '.resources', messages=[message('Widget', [field('name', 1, 'string')])])
+        res.dependency.extend(desc.std_dep_names())
+        req2 = plugin_pb2.CodeGeneratorRequest(parameter=req.parameter)
+        req2.proto_file.extend([pf for pf in req.proto_file if pf.name != f.name] + [res, moved])
+        req2.file_to_generate.extend([res.name, moved.name])
+        req = req2
+        y = y.replace(f'{P}.', f'{P}.services.')
     desc.gate(req)
     return req, {'svc.yaml': y}
 
@@ -87,12 +102,21 @@ def cases():
     for c in list(out):
         if c['accept'] and c['drive'] and not c.get('long_running'):
             out.append(dict(c, id=c['id'] + '|ads-templates', ads=True))
+    # the same judgement when every file of the API lives in a proto sub-package
+    for c in list(out):
+        if c['id'] in ('decl/plain/unannotated/non-required/string/top', 'decl/plain/uuid4/required/string/top',
+                       'decl/plain/uuid4/non-required/bytes/top', 'decl/plain/uuid4/non-required/string/nested'):
+            out.append(dict(c, id=c['id'] + '|subpackages-only', layout='subpackages'))
     # a *repeated* string is not "a string" field
     out.append(dict(id='decl/repeated-string', fields=[('request_id', dict(GOOD, repeated=True))], methods={'Do': 'unary'},
                     settings=[('Do', ['request_id'])], accept=False, drive=[]))
     for kind in ('server-streaming', 'client-streaming', 'bidi'):
         out.append(dict(id=f'method/{kind}', fields=[('request_id', GOOD)], methods={'Do': kind}, settings=[('Do', ['request_id'])],
                         accept=False, drive=[]))
+    out.append(dict(id='method/server-streaming|subpackages-only', fields=[('request_id', GOOD)], methods={'Do': 'server-streaming'},
+                    settings=[('Do', ['request_id'])], accept=False, drive=[], layout='subpackages'))
+    out.append(dict(id='duplicate-selector|subpackages-only', fields=[('request_id', GOOD)], methods={'Do': 'unary'},
+                    settings=[('Do', ['request_id']), ('Do', ['request_id'])], accept=False, drive=[], layout='subpackages'))
     out.append(dict(id='method/missing', fields=[('request_id', GOOD)], methods={'Do': 'unary'}, settings=[('Nope', ['request_id'])],
                     accept=False, drive=[]))
     for cid, sel in (('method/other-version', 'acme.auto.v2.Auto.Do'), ('method/other-package', 'acme.otto.v1.Auto.Do'),
